@@ -1136,7 +1136,7 @@ def jobs(tier):
         out.append(_qjob('ab *b', ['~~ ~~', '~~']))
         out.append(_qjob('*b', ['~~', '~~'], second='b'))
         out.append(_qjob('*b', ['~~', '~~', '~'], 'two', history='vanished'))
-        out.append(_qjob('a b', ['~~', '~', '~~~'], 'two', history='appeared'))
+        out.append(_qjob('a b', ['~', '~', '~~~'], 'two', history='appeared'))
         out.append(_qjob('a', ['~~', '~~'], 'two', history='changed'))
         out.append(_qjob('*a', ['~~', '~~'], 'flat', history='changed'))
         out.append(_qjob('a -b', ['~~', '~~'], 'sub', history='vanished'))
@@ -1202,9 +1202,11 @@ META = {
               'directly (no alias generation); history=index/incremental: SharedItem objects are created directly',
               'history=scan/vanished/appeared/changed: shares.manager.scan_directory (os.walk + getmtime) -> the harness listing (also in replays); '
               'scan_directory_files runs on engine.vloop.VLoop (run_in_executor synchronous)',
-              'module-level containers / lru_caches of the four modules under test are reset to their import-time content at the start '
-              'of every path and replay (each path = a freshly started process; state carried from query to query is covered by the '
-              'two-query jobs)',
+              'at the start of every path and replay: dict / list / set globals of every loaded aioslsk.shares.* module and aioslsk.search.model '
+              'back to their import-time content, and cache_clear() on every functools cache found in their module dicts and in the dicts of '
+              'the classes they define (through staticmethod / classmethod / property); each path = a freshly started process; state carried '
+              'inside a path (query to query, scan to scan) is what the two-query and rescan jobs cover',
+              'rescan jobs: gc.collect() after the rescan (after one gc.freeze() per process so that it only looks at objects created since)',
               'h_contains / h_index: `os` -> engine.symos.OsShim: os.walk over sstr.SymFS (an in-memory tree whose entry names may be symbolic), '
               'os.path.commonpath / relpath / normpath / abspath / join as transcriptions of posixpath that fork on separator positions and '
               'component equalities (validated against posixpath and a real os.walk in prelude), getmtime = the model value',
@@ -1226,7 +1228,8 @@ META = {
                        'an intermediate directory, a sub-directory; 1..4 characters each over Σ), in some jobs 2-character file names'],
     'discriminants': ['number and lengths of file names / name templates', 'layout (shared directory and concrete sub-directory of each file)',
                       'the query template (pinned family of ' + str(len(QUERIES_THOROUGH)) + ' queries + ' + str(len(QUERIES_SYMBOLIC)) + ' symbolic templates)',
-                      'how the index came about (rebuild from items / per-directory build + clean-up / scan / rescan after a file vanished, appeared, changed)',
+                      'how the index came about (rebuild from items / per-directory build + clean-up / scan / scan, the queries, a file vanishes | appears | '
+                      'changes, rescan, garbage collection, the queries again)',
                       'a second query on the same manager',
                       'h_index: tree shape (T1..T5), name lengths, history (order of add outer / add nested / scan / remove nested / remove outer; 9 '
                       'histories), whether a sibling name is a string-prefix extension of the nested directory\'s name (decided by a fork, part '
